@@ -86,6 +86,7 @@ class Registry:
         self.spec_consts: dict[str, ast.expr] = {}
         self.lemmas: list = []
         self.fold_cache: dict = {}
+        self.fold_defs: dict = {}
         self.map_cache: dict = {}
         self.uf_cache: dict = {}
         self.qfacts: list = []        # quantified facts registered for instantiation
@@ -556,6 +557,9 @@ class Registry:
             return ex.special_quant(st, e, fname)
         if fname in ("fold", "fold_prefix") and isinstance(ex, SpecExecutor):
             return ex.special_fold(st, e, fname)
+        if fname == "seq_empty":
+            ty = self._as_ty(self.parse_type(e.args[0]))
+            return [(st, VSeq(ty, z3.Empty(TSeq(ty).sort())))]
         if fname == "seq_map" and isinstance(ex, SpecExecutor):
             return ex.special_map(st, e)
 
@@ -931,6 +935,8 @@ class Registry:
                     roots.add(ast.unparse(x.value))
                 if isinstance(x, ast.AugAssign) and isinstance(x.target, (ast.Name, ast.Attribute)):
                     roots.add(ast.unparse(x.target))
+                if isinstance(x, (ast.Yield, ast.YieldFrom)):
+                    roots.add("_yielded")
         return roots
 
     def havoc_for_loop(self, ex, st: State, body, lc: LoopContract, extra_names=()):
